@@ -850,6 +850,47 @@ theorem parse_fits (bs : Bytes) (rs : List (Bytes × Cov)) (h : parse bs = .ok r
         · exact hf.2
       · cases h
 
+/-! ### no program point panics -/
+
+def StNoPanic : St → Prop
+  | .halt (.panic _) => False
+  | _ => True
+
+theorem procStripped_noPanic (a : Acc) (l : Bytes) : StNoPanic (procStripped a l) := by
+  unfold procStripped
+  repeat' split
+  all_goals first
+    | exact (by simp [StNoPanic, invalidRecord] : StNoPanic invalidRecord)
+    | exact (by simp [StNoPanic, parseErr] : StNoPanic parseErr)
+    | exact (by simp [StNoPanic] : StNoPanic (.run _))
+
+theorem runLines_noPanic (s : St) (ls : List Bytes) (h : StNoPanic s) : StNoPanic (runLines s ls) := by
+  unfold runLines
+  induction ls generalizing s with
+  | nil => exact h
+  | cons l ls ih =>
+    apply ih
+    cases s with
+    | halt o => exact h
+    | run a => exact procStripped_noPanic a _
+
+/-- for every byte string the text reader returns `Ok` or `Err`, never a panic -/
+theorem parse_ne_panic (bs : Bytes) (site : String) : parse bs ≠ .panic site := by
+  have hf := runLines_noPanic (.run {}) (splitLines bs) (by simp [StNoPanic])
+  unfold parse runBytes
+  generalize runLines (St.run {}) (splitLines bs) = s at hf
+  cases s with
+  | halt o =>
+    intro h
+    simp only [finish] at h
+    subst h
+    simp [StNoPanic] at hf
+  | run a =>
+    simp only [finish]
+    split
+    · simp
+    · split <;> simp
+
 /-! ## JSON form -/
 namespace JsonL
 open Grcov.Gcov.Json
@@ -1033,6 +1074,19 @@ theorem semJson_names (d : Doc) :
   | cons f fs ih =>
     simp only [List.filterMap_cons, List.filter_cons, semFile]
     cases hl : f.lines.isEmpty <;> simp [ih]
+
+/-- for every value tree the JSON reader returns `Ok` or `Err(InvalidData)`, never a panic -/
+theorem toResults_ne_panic (j : Json) (site : String) : toResults j ≠ .panic site := by
+  unfold toResults; split <;> simp
+
+theorem toResults_err (j : Json) (h : decDoc j = none) : toResults j = .err "InvalidData" := by
+  unfold toResults; rw [h]
+
+/-- … and so does the reader with the gzip/JSON-text layer in front, whether that layer fails or not -/
+theorem fromReader_ne_panic (r : Option Json) (site : String) : fromReader r ≠ .panic site := by
+  cases r with
+  | none => simp [fromReader]
+  | some j => exact toResults_ne_panic j site
 
 end JsonL
 
